@@ -239,6 +239,8 @@ def run_c18(run, tier, wd, binary, replay):
             cases = [dict(kind="expr", text=rec["text"], cfg=rec["cfg"], val=rec["want"])]
         elif rec["kind"] == "vslice":
             cases = [dict(kind="vslice", xs=rec["xs"], cons=rec["cons"])]
+        elif rec["kind"] == "vnest":
+            cases = [dict(kind="vnest", ptr=rec["ptr"], nx=rec["nx"])]
         else:
             cases = [dict(kind=rec["kind"], val=rec["x"], cons=rec["cons"])]
     vlib.write_ndjson(os.path.join(bd, "in.ndjson"), cases)
@@ -248,9 +250,9 @@ def run_c18(run, tier, wd, binary, replay):
     lines = open(os.path.join(bd, "vt.ndjson")).readlines()
     monitor_lines(run, bd, "TraceValuePipe", lines, {}, ["C18_ExprResult", "C18_ValidateIff", "C09_NoPanic"], "real binding",
                   lambda rec: ("expression %r with %s: bound %s, expected %s" % (rec.get("text"), rec.get("cfg"), rec.get("got"), rec.get("want")))
-                  if rec["kind"] == "expr" else ("%s value %s with constraints %s: ok=%s" % (rec["kind"], rec.get("x", rec.get("xs")), rec.get("cons"), rec.get("ok"))), chunk=5000)
+                  if rec["kind"] == "expr" else ("%s value %s with constraints %s: ok=%s" % (rec["kind"], rec.get("x", rec.get("xs", rec.get("nx"))), rec.get("cons", "required on a nested struct member (pointer=%s)" % rec.get("ptr")), rec.get("ok"))), chunk=5000)
     for c in cases:
-        run.count_case(c, c["kind"] in ("validate", "vslice", "vstruct") or "${" in c.get("text", ""))
+        run.count_case(c, c["kind"] in ("validate", "vslice", "vstruct", "vnest") or "${" in c.get("text", ""))
     run.sample(json.loads(lines[min(7, len(lines) - 1)]))
     run.sample(json.loads(lines[-1]))
     run.cov["rule"] = ("expression cases = every tree up to depth 2 over + - * > == && ||, literals 0..3 / true / false and placeholders ${a} ${b} x 3 "
